@@ -24,6 +24,41 @@ def expected(ps, u):
     return None
 
 
+def acceptable(timpl, g, u):
+    """the edges a correct implementation may return for u: the running sums are judged in EXACT rational arithmetic on the table's
+    values, with a relative slack of a few ulps where a sum is not exactly representable (the property does not fix the order in
+    which the code rounds); where the sum is a binary64 number whatever the evaluation order (e.g. 1/2), 'reaches' is strict"""
+    from fractions import Fraction
+    J = [Fraction(b2f(x)) for x in timpl["j_bits"]]
+    W = [Fraction(b2f(x)) for x in timpl["dod_bits"]]
+    E = timpl["num_edges"]
+    es = [e for e in range(E) if g >> e & 1]
+    cums, c = [], Fraction(0)
+    for e in es:
+        h = g ^ (1 << e)
+        c += J[h] / J[g] / W[h]
+        cums.append(c)
+    uq = Fraction(u)
+    slack = Fraction(4 * len(es), 2 ** 53)
+    def exact_float(q):
+        try:
+            return Fraction(float(q)) == q
+        except OverflowError:
+            return False
+    lo = hi = None
+    for i, cq in enumerate(cums):
+        s_ = 0 if exact_float(cq) else slack
+        if lo is None and cq * (1 + s_) >= uq:
+            lo = i
+        if hi is None and cq * (1 - s_) >= uq:
+            hi = i
+    if lo is None:
+        lo = len(es) - 1
+    if hi is None:
+        hi = len(es) - 1
+    return [es[i] for i in range(lo, hi + 1)]
+
+
 def run(rep, rng, tier, replay=None):
     ngraphs = 40 if tier == "quick" else 300
     cases = []
@@ -98,11 +133,11 @@ def run(rep, rng, tier, replay=None):
                 npanic += 1
                 rep.violation("property", "sample_edge panics for u=%r in [0,1) on subgraph %d (rounded cumulative sum ends at %r)" % (u, g, ps[-1][2]),
                               case=case, failing_input=True, what="no edge selected for u in [0,1)")
-            elif exp is not None and got != exp:
-                rep.violation("property", "sample_edge(g=%d, u=%r) = %s but the first edge whose running sum reaches u is %s" % (g, u, got, exp),
-                              case=case, failing_input=True, what="not the first edge at which the running sum reaches u")
-            elif exp is None and got[0] != ps[-1][0]:
-                rep.violation("property", "u=%r above the rounded total %r: expected the last edge %d, got %s" % (u, ps[-1][2], ps[-1][0], got), case=case, failing_input=True)
+            else:
+                acc = acceptable(t, g, u)
+                if got[0] not in acc or got[1] != g ^ (1 << got[0]):
+                    rep.violation("property", "sample_edge(g=%d, u=%r) = %s but the first edge whose running sum (exact, on the table's values) reaches u is %s" % (
+                        g, u, got, acc if len(acc) > 1 else acc[0]), case=case, failing_input=True, what="not the first edge at which the running sum reaches u")
         rep.sample(dict(graph=dict(edges=c["edges"], D=c["D"]), queries=c["queries"][:3], answers=o["answers"][:3]))
     # through the public API: single remaining edge consumes no number, removal order = order of the kappas
     scases = [SCR.gen_sample_case(rng.fork(), emax=5) for _ in range(30 if tier == "quick" else 200)]
@@ -150,20 +185,18 @@ def run(rep, rng, tier, replay=None):
                 g = (1 << E) - 1
                 for k in range(E - 1):
                     u = b2f(c["point"][2 * k])
-                    ps = prefix_sums(x["table"], g)
-                    exp = expected(ps, u)
-                    want = exp[0] if exp is not None else ps[-1][0]
+                    acc = acceptable(x["table"], g, u)
                     napi += 1
-                    if order[k] != want:
-                        rep.violation("property", "sampling removed edge %d at step %d (subgraph %d, edge draw u=%r) but the first edge whose running sum reaches u is %d" % (
-                            order[k], k, g, u, want), case=c, failing_input=True, what="the sampler's edge choice is not the inverse of the tropical edge distribution")
+                    if order[k] not in acc:
+                        rep.violation("property", "sampling removed edge %d at step %d (subgraph %d, edge draw u=%r) but the first edge whose running sum reaches u is %s" % (
+                            order[k], k, g, u, acc if len(acc) > 1 else acc[0]), case=c, failing_input=True, what="the sampler's edge choice is not the inverse of the tropical edge distribution")
                         break
                     g ^= 1 << order[k]
         elif fi["tag"] != m["tag"]:
             rep.violation("correspondence", "outcome implementation %s model %s" % (fi, m), case=c)
     rep.cov["rule"] = ("accepted graphs E=2..%d; for up to 13 subgraph ids per graph with >=2 edges: u in {0, 2^-1074, 1-2^-53, its predecessor, two uniform draws, "
-                       "every binary64 running sum and its two neighbours}; exact equality of (edge, remainder)/panic between hook and model, and against the "
-                       "first-crossing rule evaluated on the implementation's own table; plus samples through the public API with the first draw at 1-2^-53 or with every edge draw a relative 1e-7 beside a running sum of its level, whose whole removal order (read off the decreasing pre-rescaling parameters) is compared with the first-crossing rule level by level. "
+                       "every binary64 running sum and its two neighbours}; exact equality of (edge, remainder)/panic between hook and model (correspondence), and against the "
+                       "first-crossing rule in exact rationals on the implementation's own table (a few ulps of slack where a sum is not a binary64 number, strict where it is); plus samples through the public API with the first draw at 1-2^-53 or with every edge draw a relative 1e-7 beside a running sum of its level, whose whole removal order (read off the decreasing pre-rescaling parameters) is compared with the first-crossing rule level by level. "
                        "non-trivial = subgraph with >=3 edges and unequal probabilities" % (5 if tier == "quick" else 7))
     rep.cov["panics_seen"] = npanic
     rep.cov["edge_choices_checked_through_the_public_api"] = napi
